@@ -2,8 +2,10 @@ package props
 
 import (
 	"fmt"
+	yang "github.com/freeconf/yang"
 	"io"
 	"net/url"
+	"reflect"
 	"runtime"
 	"strings"
 	"sync"
@@ -444,7 +446,98 @@ func (p c20) use(c *core.Ctx, clock *opClock, G int, mixed bool) {
 			}
 		}
 	}
+	// the module exported as data (the schema browser) into Go values, and every slice of that copy overwritten: the copy is
+	// the caller's, the module is not
 	c.Eval()
+	if ymod, yerr := parser.LoadModule(yang.InternalYPath, "fc-yang"); yerr != nil {
+		c.Count("schema_browser_module_not_loaded")
+	} else {
+		dest := map[string]interface{}{}
+		var xerr error
+		// (the export of a module with a choice ends with an error of the schema browser: what it wrote until then is a copy too)
+		if !c.Guard("schema export", func() { xerr = nodeutil.Schema(ymod, s.Mod).Root().UpsertInto(nodeutil.ReflectChild(dest)) }) {
+			if xerr != nil {
+				c.Count("schema_export_ended_with_error")
+			}
+			scribbled := 0
+			var scribble func(v reflect.Value, depth int)
+			scribble = func(v reflect.Value, depth int) {
+				if depth > 40 {
+					return
+				}
+				for v.Kind() == reflect.Interface || v.Kind() == reflect.Pointer {
+					if v.IsNil() {
+						return
+					}
+					v = v.Elem()
+				}
+				switch v.Kind() {
+				case reflect.Map:
+					for _, k := range v.MapKeys() {
+						scribble(v.MapIndex(k), depth+1)
+					}
+				case reflect.Slice:
+					for i := 0; i < v.Len(); i++ {
+						it := v.Index(i)
+						if it.Kind() == reflect.String && it.CanSet() {
+							it.SetString("scribbled-in-the-exported-copy")
+							scribbled++
+						} else {
+							scribble(it, depth+1)
+						}
+					}
+				}
+			}
+			scribble(reflect.ValueOf(dest), 0)
+			c.CountN("exported_strings_overwritten", scribbled)
+		}
+	}
+	// the same with a module that has what the schema browser hands out as lists of strings: bases of identities, unique of lists
+	c.Eval()
+	if ymod, yerr := parser.LoadModule(yang.InternalYPath, "fc-yang"); yerr == nil {
+		sx, serr := parser.LoadModuleFromString(nil, `module sx { namespace "urn:sx"; prefix sx; revision 2020-01-01; feature f1; identity b1; identity b2; identity both { base b1; base b2; } identity one { base b1; }
+  list l { key k; unique "a b"; unique "c"; leaf k { type string; } leaf a { type string; } leaf b { type string; } leaf c { if-feature "f1"; type string; } }
+  leaf-list dl { type string; default "d1"; default "d2"; } leaf e { type enumeration { enum e1; enum e2; } } leaf bt { type bits { bit t1; bit t2; } } }`)
+		if serr != nil {
+			c.Violate("harness/schema-export-module", "%v", serr)
+		} else {
+			d0, _ := walk.Dump(sx)
+			before := walk.JSON(d0)
+			dest := map[string]interface{}{}
+			c.Guard("schema export sx", func() { nodeutil.Schema(ymod, sx).Root().UpsertInto(nodeutil.ReflectChild(dest)) })
+			n := 0
+			var scribble func(v reflect.Value, depth int)
+			scribble = func(v reflect.Value, depth int) {
+				for v.Kind() == reflect.Interface || v.Kind() == reflect.Pointer {
+					if v.IsNil() {
+						return
+					}
+					v = v.Elem()
+				}
+				switch v.Kind() {
+				case reflect.Map:
+					for _, k := range v.MapKeys() {
+						scribble(v.MapIndex(k), depth+1)
+					}
+				case reflect.Slice:
+					for i := 0; i < v.Len() && depth < 40; i++ {
+						if it := v.Index(i); it.Kind() == reflect.String && it.CanSet() {
+							it.SetString("scribbled-in-the-exported-copy")
+							n++
+						} else {
+							scribble(it, depth+1)
+						}
+					}
+				}
+			}
+			scribble(reflect.ValueOf(dest), 0)
+			c.CountN("exported_list_items_overwritten", n)
+			d1, _ := walk.Dump(sx)
+			if after := walk.JSON(d1); after != before {
+				c.Violate("use/module-mutated/thru-exported-copy", "writing into the Go values the schema browser exported changed the module itself:\n%s", lineDiff(before, after))
+			}
+		}
+	}
 	if fp := walk.Fingerprint(s.Mod); fp != fpBefore {
 		c.Violate("use/module-mutated/fingerprint", "the reflection fingerprint of the compiled module changed while it was being used (%x -> %x)", fpBefore, fp)
 	}
